@@ -437,3 +437,31 @@ def split_table_loops(funcnode):
         return funcnode
     ast.fix_missing_locations(new)
     return new
+
+
+_OPERATOR_FUNCS = {'eq': ast.Eq, 'ne': ast.NotEq, 'lt': ast.Lt, 'le': ast.LtE, 'gt': ast.Gt, 'ge': ast.GtE}
+
+
+def plain_attributes_and_comparisons(funcnode):
+    """A copy of the function in which `getattr(x, 'name')` with a literal name is written `x.name`, and `operator.ge(a, b)`
+    (eq, ne, lt, le, gt, ge) is written `a >= b` - what a dispatch over a written-out table of (predicate name, operator) pairs
+    turns into once the table is unrolled.  Returns funcnode itself when there is nothing to rewrite."""
+    count = [0]
+
+    class T(ast.NodeTransformer):
+        def visit_Call(self, node):
+            self.generic_visit(node)
+            if isinstance(node.func, ast.Name) and node.func.id == 'getattr' and len(node.args) == 2 and not node.keywords and \
+                    isinstance(node.args[1], ast.Constant) and isinstance(node.args[1].value, str) and node.args[1].value.isidentifier():
+                count[0] += 1
+                return ast.copy_location(ast.Attribute(value=node.args[0], attr=node.args[1].value, ctx=ast.Load()), node)
+            if isinstance(node.func, ast.Attribute) and isinstance(node.func.value, ast.Name) and node.func.value.id == 'operator' and \
+                    node.func.attr in _OPERATOR_FUNCS and len(node.args) == 2 and not node.keywords:
+                count[0] += 1
+                return ast.copy_location(ast.Compare(left=node.args[0], ops=[_OPERATOR_FUNCS[node.func.attr]()], comparators=[node.args[1]]), node)
+            return node
+    new = T().visit(copy.deepcopy(funcnode))
+    if not count[0]:
+        return funcnode
+    ast.fix_missing_locations(new)
+    return new
